@@ -39,7 +39,7 @@ TABLE = {
          "Disjunctions mixing finite goals, infinite producers and silent divergers at several nesting positions; each branch's first answers (run alone) must be produced by the whole disjunction within 256x their cost + 10000 steps (10x confirm run). A scale family uses disjunctions of up to 200/600 branches and divergers buried below up to 400/1000 pending conjunctions. A third of the cases each is built as the macros expand, with from_conjunctions, and with nested Disj::new. Decides starvation/divergence, not mere slowness. Exploration.",
          "Needs the cfg-guarded step counter in StreamEngine::step; bounded liveness only."),
  "C08": (PBT + ": metamorphic relation between a committed-choice program and the program with the committed head (conda) or its first head answer re-imposed (condu/onceo); reference interpreter for conda and matcha/matchu",
-         "conda/condu/onceo over generated heads with 0/1/many/lazy/infinite answers and generated rest goals; matcha/matchu built dynamically; conda over finite-domain posting sequences cut into prefix | head | rest; heads whose first answer needs up to millions of engine steps (scale). Exploration.",
+         "conda/condu/onceo over generated heads with 0/1/many/lazy/infinite answers and generated rest goals; matcha/matchu built dynamically; conda over finite-domain posting sequences cut into prefix | head | rest; heads whose first answer needs up to millions of engine steps (scale); matcha/matchu in macro syntax through the compile pipeline (450 / 6000 generated programs, reference expansion as oracle). Exploration.",
          REFI),
  "C09": (PBT + ": run-to-run differential (same Query object twice, 4 rebuilt runs, 2 re-exec'd child processes with fresh hash seeds), fusedness invariant, bounded-step laziness check",
          "Canonical answer sequences of tree, search and CLP(FD) programs must be identical position by position across repeated runs and processes; the iterator must stay None; take(n) of productive infinite programs must finish within a step budget. The reported constraints must agree syntactically (up to renaming, order of constraints, order and orientation of pairs), not only semantically. Extra families: multi-pair disequalities with chained variables, finite-domain branches ending in a multi-binding unification next to a sibling branch, and programs with one large dimension. Exploration; hash seeds are sampled, not enumerated.",
